@@ -3,7 +3,11 @@
 From GV Require Export World.
 
 (** a policy commit: its parent (on the staging line) and the state it holds *)
-Record pcommit := { pc_parent : option N; pc_state : pstate }.
+(** [pc_ctl_ok]: the controller part of State.Verify succeeds for this commit - trivially when the tree
+    carries no controller metadata; otherwise every controller repository the root declares must be
+    clonable, a propagation entry of this log must vouch for it, and its own root of trust must load.
+    The flag is an input of the model: controller repositories themselves are not modelled. *)
+Record pcommit := { pc_parent : option N; pc_state : pstate; pc_ctl_ok : bool }.
 
 Record astate := {
   a_policy : option N;                     (* refs/gittuf/policy *)
@@ -14,7 +18,7 @@ Record astate := {
 
 Definition a_init : astate := {| a_policy := None; a_staging := None; a_log := []; a_commits := []; a_next := 1 |}.
 
-Inductive aop := AStage (ps : pstate) | AApply | ADiscard | ATamperPolicy (c : N) | ATamperStaging (c : N).
+Inductive aop := AStage (ps : pstate) (ctl_ok : bool) | AApply | ADiscard | ATamperPolicy (c : N) | ATamperStaging (c : N).
 Inductive aerr := AEInvalidPolicy | AENotAncestor | AENoStaging | AEInvalidState | AEOther.
 
 Fixpoint lookup_pc (cs : list (N * pcommit)) (c : N) : option pcommit :=
@@ -73,10 +77,10 @@ Definition reconcile (s : astate) : option aerr * astate :=
 
 Definition astep (s : astate) (o : aop) : option aerr * astate :=
   match o with
-  | AStage ps =>
+  | AStage ps ctl_ok =>
       let c := a_next s in
       (None, {| a_policy := a_policy s; a_staging := Some c; a_log := a_log s ++ [(false, c)];
-                a_commits := (c, {| pc_parent := a_staging s; pc_state := ps |}) :: a_commits s; a_next := N.succ c |})
+                a_commits := (c, {| pc_parent := a_staging s; pc_state := ps; pc_ctl_ok := ctl_ok |}) :: a_commits s; a_next := N.succ c |})
   | ADiscard =>
       (None, {| a_policy := a_policy s; a_staging := a_policy s; a_log := a_log s; a_commits := a_commits s; a_next := a_next s |})
   | ATamperPolicy c =>
@@ -104,9 +108,10 @@ Definition astep (s : astate) (o : aop) : option aerr * astate :=
                     | Some cur, Some ste =>
                         match lookup_pc (a_commits s1) ste with
                         | Some staged =>
-                            if state_verify (pc_state staged)
+                            if pc_ctl_ok staged
+                               && (state_verify (pc_state staged)
                                && match cur with Some c => verify_new_state c (pc_state staged) | None => true end   (* F8 repair *)
-                               && match cur with Some c => state_verify c | None => true end
+                               && match cur with Some c => state_verify c | None => true end)
                             then (None, {| a_policy := Some st; a_staging := a_staging s1; a_log := a_log s1 ++ [(true, st)];
                                            a_commits := a_commits s1; a_next := a_next s1 |})
                             else (Some AEInvalidState, s1)
